@@ -39,9 +39,10 @@ TIERS = {
     # depend on the machine's load; the number of exchanges actually executed is measured and reported.
     # floor: the least time the exchanges get even when the build (first build after a change of /repo, or waiting for
     # another check's cargo lock) or the model checker ate the budget - a slow start must not turn into a tool error
-    "quick": dict(per_class=1, pairs_hot=40, pairs_rest=40, group=8, mutants=["validate"], tv_chunks=6, wall=165, reserve=35, floor=75),
-    "thorough": dict(per_class=1000, pairs_hot=100000, pairs_rest=700, group=8, mutants=["validate", "check_fees", "restore_fee", "restore_amount"],
-                     tv_chunks=10, wall=1440, reserve=150, floor=400),
+    "quick": dict(per_class=1, pairs_hot=40, pairs_rest=40, group=8, mutants=["validate", "late_take"], tv_chunks=6, wall=165, reserve=35, floor=75,
+                  retry_late=0.9, retry_other=0.35),
+    "thorough": dict(per_class=1000, pairs_hot=100000, pairs_rest=700, group=8, mutants=["validate", "check_fees", "restore_fee", "restore_amount", "late_take"],
+                     tv_chunks=10, wall=1440, reserve=150, floor=400, retry_late=0.85, retry_other=0.6),
 }
 
 
@@ -129,15 +130,16 @@ def selftest_corrupt(events):
     TLA+ side (Layer P) to reject exactly that"""
     import copy
     ok_ev = next((e for e in events if e.get("run") == "ok" and e["o"]["res"] == "ok" and e["o"]["tx"]["chain_ok"]), None)
-    bad_ev = next((e for e in events if e.get("run") == "ok" and e["o"]["res"] != "ok" and e["c"].get("verdict") == "must_fail" and e["o"]["cancel"]), None)
-    if not ok_ev or not bad_ev:
+    bad_ev = next((e for e in events if e.get("run") == "ok" and "o2" not in e and e["o"]["res"] != "ok" and e["c"].get("verdict") == "must_fail" and e["o"]["cancel"]), None)
+    re_ev = next((e for e in events if e.get("run") == "ok" and "o2" in e and e["o2"]["res"] == "ok" and e["o2"]["tx"]["chain_ok"]), None)
+    if not ok_ev or not bad_ev or not re_ev:
         return None
     want, lines = {}, []
 
-    def add(ev, i, mon, f):
+    def add(ev, i, mon, f, which="o"):
         x = copy.deepcopy(ev)
         x["c"]["id"] = i
-        f(x["o"])
+        f(x[which])
         lines.append(json.dumps(x))
         want[i] = mon
 
@@ -159,6 +161,11 @@ def selftest_corrupt(events):
     add(bad_ev, 900006, "TamperRefused", accepted)
     add(bad_ev, 900007, "StillCancellable", balance)
     add(bad_ev, 900008, "StillCancellable", cancel)
+    def second_entry(o): o["resv"]["nsent"] = 2
+    def stray_lock(o): o["resv"]["ins"] = o["resv"]["ins"] + [{"n": "w1:a0c999", "v": 60000}]
+    add(re_ev, 900009, "Retry.FinalTxValidExact.entries", second_entry, "o2")
+    add(re_ev, 900010, "Retry.FinalTxValidExact.inputs", stray_lock, "o2")
+    add(ok_ev, 900011, "FinalTxValidExact.entries", second_entry)
     lines.append(json.dumps(ok_ev))      # an untouched line must stay clean
     d = workdir("selftest_C02")
     p = os.path.join(d, "corrupt.ndjson")
@@ -193,6 +200,7 @@ def run(tier, replay_path, t0):
         for i, c in enumerate(stim):
             c["id"] = i
             c.setdefault("tamper2", "none")
+            c.setdefault("retry", c.get("stage") != "none")
         allcases = stim
     else:
         # seeded spec mutants run beside the main enumeration
@@ -203,7 +211,7 @@ def run(tier, replay_path, t0):
         mut_thread = threading.Thread(target=muts)
         mut_thread.start()
         # the enumeration is split over six TLC processes: all single alterations, and the pairs flow by flow
-        invs = ["Inv_Reply", "Inv_Honest", "Inv_FinalTxValidExact", "Inv_TamperRefused", "EmitCase"]
+        invs = ["Inv_Reply", "Inv_Honest", "Inv_FinalTxValidExact", "Inv_TamperRefused", "Inv_Reserved", "Inv_Retry", "Inv_RetrySucceeds", "EmitCase"]
         jobs = [("singles", (), True)] + [("pairs_" + f, (f,), False) for f in FLOWS]
 
         def mc_part(j):
@@ -259,6 +267,11 @@ def run(tier, replay_path, t0):
         rnd.shuffle(head)
         rnd.shuffle(tail)
         stim = head + tail
+        # two deliveries: after a refused altered reply the genuine one is delivered as well - for every late-locked
+        # case (the flow in which a refused finalize has already written to the store) but a seeded few, which keep
+        # the direct cancel after the first refusal, and for a seeded share of the other flows
+        for c in stim:
+            c["retry"] = c["stage"] != "none" and rnd.random() < (T["retry_late"] if c["flow"] == "late" else T["retry_other"])
         for i, c in enumerate(stim):
             c["id"] = i
     if not stim:
@@ -308,7 +321,7 @@ def run(tier, replay_path, t0):
         k["count"] += 1
         if len(k["cases"]) < 3:
             e = by_id[v["id"]]
-            k["cases"].append({x: e["c"].get(x, "none") for x in FIELDS})
+            k["cases"].append(dict({x: e["c"].get(x, "none") for x in FIELDS}, retry=bool(e["c"].get("retry"))))
             k["observed"].append({"o": e.get("o"), "steps": e.get("steps"), "info": v.get("info")})
     if nonconfs:
         per = {}
@@ -328,7 +341,8 @@ def run(tier, replay_path, t0):
     known, new = classify("C02", keys)
     ran = [e for e in events if e.get("run") == "ok"]
     kinds, wit = {}, {"success_validated_and_mined": 0, "must_fail_refused": 0, "may_fail_succeeded": 0, "failed_then_cancelled": 0,
-                      "late_lock_failed_after_locking": 0, "noreply": 0, "delivered_off_wire": 0}
+                      "late_lock_failed_after_locking": 0, "noreply": 0, "delivered_off_wire": 0,
+                      "retry_delivered": 0, "retry_succeeded_exact_and_mined": 0, "late_retry_after_lock_succeeded": 0, "cancelled_by_slate_id": 0}
     verdict_of = {json.dumps({x: c.get(x, "none") for x in FIELDS}, sort_keys=True): c.get("verdict") for c in allcases}
     for e in events:
         c = e["c"]
@@ -351,17 +365,29 @@ def run(tier, replay_path, t0):
             wit["failed_then_cancelled"] += 1
         if not ok and c["flow"] == "late" and o["resv"]["ins"]:
             wit["late_lock_failed_after_locking"] += 1
+        if "o2" in e:
+            wit["retry_delivered"] += 1
+            if e["o2"]["res"] == "ok" and e["o2"]["tx"]["valid"] and e["o2"]["tx"]["chain_ok"]:
+                wit["retry_succeeded_exact_and_mined"] += 1
+                if c["flow"] == "late" and o["resv"]["ins"]:
+                    wit["late_retry_after_lock_succeeded"] += 1
+        last = e.get("o2", o)
+        if last["res"] != "ok" and e.get("cancel_by") == "slate" and last["cancel"] and all(x == "ok" for x in last["cancel"]):
+            wit["cancelled_by_slate_id"] += 1
         if not (e.get("post_wire", True) and e.get("pre_wire", True)):
             wit["delivered_off_wire"] += 1
     if not replay_path:
-        for w in ("success_validated_and_mined", "must_fail_refused", "may_fail_succeeded", "failed_then_cancelled"):
+        for w in ("success_validated_and_mined", "must_fail_refused", "may_fail_succeeded", "failed_then_cancelled",
+                  "retry_succeeded_exact_and_mined", "late_retry_after_lock_succeeded", "cancelled_by_slate_id"):
             if wit[w] == 0:
                 raise ToolError("vacuity: no executed case witnessed '%s'" % w)
     cov = {
         "states": mc["states"] if mc else 0,
         "transitions": mc["transitions"] if mc else 0,
         "traces_validated_against_impl": len(ran),
-        "samples": [{"case": e["c"], "observed": {k: e["o"][k] for k in ("res", "tx", "deal", "resv", "cancel", "pending_after")}} for e in rnd.sample(ran, min(6, len(ran)))],
+        "samples": [{"case": e["c"], "observed": {k: e["o"][k] for k in ("res", "tx", "deal", "resv", "cancel", "pending_after")},
+                     "observed_retry": ({k: e["o2"][k] for k in ("res", "tx", "resv", "cancel", "pending_after")} if "o2" in e else None)}
+                    for e in rnd.sample(ran, min(6, len(ran)))],
         "exhaustive": bool(mc and mc["completed"]),
         "mc_constants": {"Skip": [], "NinSet": [1, 2], "NchSet": [0, 1, 2], "PairFlows": list(FLOWS)},
         "mc_wall_s": round(mc["wall_s"], 1) if mc else 0,
